@@ -2079,6 +2079,8 @@ class _FieldText(Provenance):
     functools.partial), `.replace(<const>, <const>)` and `.translate(<constant table>)` - each is the identity on every
     text the document format can carry iff it touches none of the format's characters."""
 
+    kind = str          # the type of the tracked value (patterns, replacements and `replace` arguments have it too)
+
     def __init__(self, p, f: Func, ranges, doc: str):
         Provenance.__init__(self, p, f, 'self')
         self.ranges, self.doc = ranges, doc
@@ -2164,12 +2166,21 @@ class _FieldText(Provenance):
         if len(v.args) > 2 or any(k.arg != 'flags' for k in v.keywords):
             raise UnknownIdiom('%s: %s' % (self.f.qual, short(v)))
         pat = self.p.fold(m, v.args[0])
-        if not isinstance(pat, str):
-            raise UnknownIdiom('%s: pattern of %s is not a constant str' % (self.f.qual, short(v)))
+        if not isinstance(pat, self.kind):
+            raise UnknownIdiom('%s: pattern of %s is not a constant %s' % (self.f.qual, short(v), self.kind.__name__))
         return pat, sum(self._flags(x, m) for x in fl[:1])
 
     # -- filters
-    def _touched(self, pattern: str, flags: int, c) -> Optional[str]:
+    def _touched(self, pattern, flags: int, c) -> Optional[str]:
+        """What of the document alphabet a match of the pattern contains (as a phrase), None when provably nothing."""
+        ch = self._touched_char(pattern, flags, c)
+        return None if ch is None else 'U+%04X, a character %s documents carry' % (ord(ch), self.doc)
+
+    def _occurs(self, piece) -> bool:
+        """Can the non-empty constant `piece` occur in a text the document carries?"""
+        return all(_carried(self.ranges, ch) for ch in piece)
+
+    def _touched_char(self, pattern: str, flags: int, c) -> Optional[str]:
         """A character of the document alphabet that a match of the pattern contains, None when provably none."""
         try:
             rx = re.compile(pattern, flags)
@@ -2202,7 +2213,7 @@ class _FieldText(Provenance):
             if len(args) != 3 or c.keywords:
                 raise UnknownIdiom('%s: arguments of %s' % (self.f.qual, short(c)))
             pat = self._const(args[0], nid, 'pattern', c)
-            if not isinstance(pat, str):
+            if not isinstance(pat, self.kind):
                 raise UnknownIdiom('%s: pattern of %s' % (self.f.qual, short(c)))
             rx, repl, subject = (pat, 0), args[1], args[2]
         else:
@@ -2216,13 +2227,12 @@ class _FieldText(Provenance):
         if not origin.derived:
             return Origin()
         r = self._const(repl, nid, 'replacement', c)
-        if not isinstance(r, str) or '\\' in r:
+        if not isinstance(r, self.kind) or ('\\' if self.kind is str else b'\\') in r:
             raise UnknownIdiom('%s: replacement of %s' % (self.f.qual, short(c)))
-        ch = self._touched(rx[0], rx[1], c)
-        if ch is None:
+        hit = self._touched(rx[0], rx[1], c)
+        if hit is None:
             return origin
-        return origin.step('rewrite', c, 'the pattern %s matches U+%04X, a character %s documents carry: it is %s' % (
-            ascii(rx[0]), ord(ch), self.doc, 'deleted' if r == '' else 'replaced by %r' % r))
+        return origin.step('rewrite', c, 'the pattern %s matches %s: it is %s' % (ascii(rx[0]), hit, 'deleted' if not r else 'replaced by %r' % r))
 
     def _text_method(self, c: ast.Call, nid: int) -> Optional[Origin]:
         fn = c.func
@@ -2237,12 +2247,12 @@ class _FieldText(Provenance):
             if len(c.args) != 2:
                 raise UnknownIdiom('%s: arguments of %s' % (self.f.qual, short(c)))
             old, new = (self._const(a, nid, 'argument', c) for a in c.args)
-            if not (isinstance(old, str) and isinstance(new, str)):
+            if not (isinstance(old, self.kind) and isinstance(new, self.kind)):
                 raise UnknownIdiom('%s: arguments of %s' % (self.f.qual, short(c)))
-            if old == new or (old and not all(_carried(self.ranges, ch) for ch in old)):
+            if old == new or (old and not self._occurs(old)):
                 return recv         # no text the document can carry contains `old`
             return recv.step('rewrite', c, '%s occurs in texts %s documents carry' % (ascii(old), self.doc))
-        if len(c.args) != 1:
+        if len(c.args) != 1 or self.kind is not str:
             raise UnknownIdiom('%s: arguments of %s' % (self.f.qual, short(c)))
         v, m = self._value_of(c.args[0], nid)
         table = None
@@ -2305,6 +2315,390 @@ def _document_text_rule(run, f: Func, doc: str):
                                   'U+1F4B3): the %s body no longer says what the error says (and what the other format says)' % doc)
     if not n_fields:
         raise AnchorError('%s: no store of a field value into the %s document found' % (f.qual, doc))
+
+
+# ---------------------------------------------------------------------------
+# R4 (h) to_json serialises to_dict() WHOLE; (i) the public renderers return the serializer's bytes unchanged
+# ---------------------------------------------------------------------------
+
+# the bytes a UTF-8 encoded XML / JSON error document can contain: the encodings of these code points (JSON escapes the
+# other C0 controls; U+FFFE/U+FFFF are JSON-only and add no new byte)
+UTF8_DOC_RANGES = ((0x9, 0xA), (0xD, 0xD), (0x20, 0xD7FF), (0xE000, 0x10FFFF))
+BYTE_PROBES = ('ß', '€', 'Ā', 'я', '中', '\U0001f4b3') + CHAR_PROBES
+UTF8_NAMES = ('utf-8', 'utf8', 'utf_8', 'u8')
+DICT_COPIES = ('builtins.dict', 'collections.OrderedDict', 'copy.copy', 'copy.deepcopy')
+DICT_REMOVERS = ('pop', 'popitem', 'clear')
+DICT_WRITERS = ('update', 'setdefault', '__setitem__', '__ior__')
+# partition of what a member of the error dict can hold, for deciding a selection predicate
+CELL_NONE, CELL_ZERO, CELL_EMPTY, CELL_TRUTHY = 'None', '0', "''", 'truthy'
+_CELL_VALUE = {CELL_NONE: None, CELL_ZERO: 0, CELL_EMPTY: ''}
+
+
+def _cell_compare(op, cell: str, const) -> Optional[bool]:
+    """`<member value> <op> <const>` for a value in `cell` (None: not decided by the cell alone)."""
+    if cell in _CELL_VALUE:
+        v = _CELL_VALUE[cell]
+        if isinstance(op, (ast.Is, ast.IsNot)):
+            if const is not None:
+                return None
+            r = v is None
+            return r if isinstance(op, ast.Is) else not r
+        try:
+            if isinstance(op, (ast.Eq, ast.NotEq)):
+                return (v == const) == isinstance(op, ast.Eq)
+            if isinstance(op, (ast.In, ast.NotIn)) and isinstance(const, (tuple, list, frozenset, set)):
+                return (v in const) == isinstance(op, ast.In)
+        except Exception:  # noqa: BLE001
+            return None
+        return None
+    # a truthy value differs from every falsy constant; nothing is known about its relation to a truthy one
+    if isinstance(op, (ast.In, ast.NotIn)) and isinstance(const, (tuple, list, frozenset, set)):
+        if all(not x for x in const):
+            return isinstance(op, ast.NotIn)
+        return None
+    if isinstance(const, (tuple, list, frozenset, set, dict)):
+        return None
+    if not const:
+        if isinstance(op, (ast.Eq, ast.Is)):
+            return False
+        if isinstance(op, (ast.NotEq, ast.IsNot)):
+            return True
+    return None
+
+
+class _Rendered(_FieldText):
+    """Provenance of a value relative to ONE ROOT CALL inside the function (`self.to_dict()`, `self._to_xml()`,
+    `<handler>.serialize(<doc>, ...)`): is what reaches the sink that call's result ITSELF?  Nothing else is tracked (no
+    parameter is a root).  kind=dict reads the shapes that copy, select from or rebuild a mapping (comprehensions over
+    `.items()` / the keys, dict(...)/copy, `{**d}`); kind=bytes reads regex / replace filters over the byte alphabet of a
+    UTF-8 document and the decode/encode round trip.  Everything else that touches the root is UnknownIdiom."""
+
+    def __init__(self, p, f: Func, is_root, doc: str, kind, members: Optional[Dict[str, bool]] = None):
+        Provenance.__init__(self, p, f, None, root_local='<the root call>')
+        self.ranges, self.doc, self.kind, self.is_root = UTF8_DOC_RANGES, doc, kind, is_root
+        self.members = members or {}
+
+    def _is_field(self, e) -> bool:
+        return self.is_root(e)
+
+    def classify_any(self, e, nid: int) -> Origin:
+        out = Provenance.classify_any(self, e, nid)
+        if any(self.is_root(x) for x in walk_self(e)):
+            out = out.merge(Origin(True))
+        return out
+
+    def classify(self, e, nid: int) -> Origin:
+        if self.is_root(e):
+            return Origin(True)
+        r = self._mapping_shape(e, nid) if self.kind is dict else (self._bytes_shape(e, nid) if self.kind is bytes else None)
+        if r is not None:
+            return r
+        return Provenance.classify(self, e, nid)
+
+    # ---- bytes
+    def _codec(self, c: ast.Call) -> Tuple[Optional[str], Optional[str]]:
+        """(codec, errors) of a `.decode(...)` / `.encode(...)` call; (None, None) when not constant."""
+        vals = {'encoding': 'utf-8', 'errors': 'strict'}
+        for name, a in list(zip(('encoding', 'errors'), c.args)) + [(k.arg, k.value) for k in c.keywords]:
+            v = self.p.fold(self.f.module, a, None, self.f)
+            if name not in vals or not isinstance(v, str):
+                return None, None
+            vals[name] = v
+        return vals['encoding'].lower(), vals['errors']
+
+    def _bytes_shape(self, e, nid: int) -> Optional[Origin]:
+        if not isinstance(e, ast.Call):
+            return None
+        fn = e.func
+        if self._q(fn) in ('builtins.bytes',) and len(e.args) == 1 and not e.keywords:
+            return self.classify(e.args[0], nid)
+        if isinstance(fn, ast.Attribute) and fn.attr in ('strip', 'lstrip', 'rstrip') and not e.args and not e.keywords \
+                and self.classify(fn.value, nid).derived:
+            raise UnknownIdiom('%s: %s - whether the serialized document can start / end with whitespace is not decided' % (self.f.qual, short(e)))
+        # <doc>.decode(<utf-8>).encode(<codec>): the identity iff both sides are strict UTF-8
+        if isinstance(fn, ast.Attribute) and fn.attr == 'encode' and isinstance(fn.value, ast.Call) and isinstance(fn.value.func, ast.Attribute) \
+                and fn.value.func.attr == 'decode':
+            inner = self.classify(fn.value.func.value, nid)
+            if not inner.derived:
+                return None
+            dec, enc = self._codec(fn.value), self._codec(e)
+            if dec[0] is None or enc[0] is None:
+                raise UnknownIdiom('%s: codec of %s is not a constant' % (self.f.qual, short(e)))
+            if dec[0] not in UTF8_NAMES:
+                raise UnknownIdiom('%s: %s decodes the UTF-8 document with another codec' % (self.f.qual, short(e)))
+            if enc[0] in UTF8_NAMES:
+                return inner       # a well-formed document decodes (under any error policy) and re-encodes to the same bytes
+            return inner.step('rewrite', e, 're-encoded as %s (errors=%s): the %s document declares / is read as UTF-8 and characters '
+                                            'outside that codec are lost or substituted' % (enc[0], enc[1], self.doc))
+        return None
+
+    def _alphabet_bytes(self) -> bytes:
+        return _alphabet(self.ranges).encode('utf-8')
+
+    def _touched(self, pattern, flags: int, c) -> Optional[str]:
+        if self.kind is not bytes:
+            return _FieldText._touched(self, pattern, flags, c)
+        try:
+            rx = re.compile(pattern, flags)
+        except (re.error, ValueError) as e:
+            raise UnknownIdiom('%s: pattern %r does not compile: %s' % (self.f.qual, pattern, e))
+
+        def phrase(ch, byte):
+            if ord(ch) < 0x80:
+                return 'the byte 0x%02X (U+%04X), which %s documents carry' % (byte, ord(ch), self.doc)
+            return 'the byte 0x%02X of %s, the UTF-8 encoding of U+%04X (%s): a bytes pattern sees encoded bytes, not characters' % (
+                byte, ascii(ch.encode('utf-8')), ord(ch), ascii(ch))
+        for ch in BYTE_PROBES:
+            m = rx.search(ch.encode('utf-8'))
+            if m is not None and m.group():
+                return phrase(ch, m.group()[0])
+        if rx.fullmatch(b'') is not None:
+            raise UnknownIdiom('%s: pattern %r of %s also matches the empty string' % (self.f.qual, pattern, short(c)))
+        alpha = self._alphabet_bytes()
+        m = rx.search(alpha)
+        if m is not None:
+            # the character whose encoding holds the first matched byte: lead / ASCII bytes up to there, counted
+            idx = sum(1 for b in alpha[:m.start() + 1] if b & 0xC0 != 0x80) - 1
+            ch = _alphabet(self.ranges)[idx]
+            return phrase(ch, m.group()[0])
+        if not _is_char_class(pattern, flags):
+            raise UnknownIdiom('%s: pattern %r of %s is not a single byte class' % (self.f.qual, pattern, short(c)))
+        return None
+
+    def _occurs(self, piece) -> bool:
+        if self.kind is not bytes:
+            return _FieldText._occurs(self, piece)
+        alpha = set(self._alphabet_bytes())
+        if not all(b in alpha for b in piece):
+            return False
+        try:
+            piece.decode('utf-8')
+        except UnicodeDecodeError:
+            raise UnknownIdiom('%s: whether the byte sequence %r can occur in a UTF-8 document is not decided' % (self.f.qual, piece))
+        return True
+
+    # ---- mappings
+    def _pred(self, conds, is_key, is_val, key: str, cell: str) -> Optional[bool]:
+        """Three-valued truth of the conjunction of comprehension conditions for the member `key` holding a value of `cell`."""
+        fold = lambda x: self.p.fold(self.f.module, x, None, self.f)  # noqa: E731
+
+        def atom(e):
+            if is_val(e):
+                return cell == CELL_TRUTHY
+            if isinstance(e, ast.Call) and self._q(e.func) == 'builtins.bool' and len(e.args) == 1 and not e.keywords and is_val(e.args[0]):
+                return cell == CELL_TRUTHY
+            if isinstance(e, ast.Compare) and len(e.ops) == 1:
+                left, op, right = e.left, e.ops[0], e.comparators[0]
+                if (is_val(right) or is_key(right)) and isinstance(op, (ast.Eq, ast.NotEq, ast.Is, ast.IsNot)):
+                    left, right = right, left
+                if is_val(left) or is_key(left):
+                    const = fold(right)
+                    if const is UNKNOWN:
+                        return None
+                    if is_val(left):
+                        return _cell_compare(op, cell, const)
+                    if isinstance(op, (ast.Eq, ast.NotEq)):
+                        return (key == const) == isinstance(op, ast.Eq)
+                    if isinstance(op, (ast.In, ast.NotIn)) and isinstance(const, (tuple, list, frozenset, set, dict, str)):
+                        return (key in const) == isinstance(op, ast.In)
+            return None
+        vals = [eval3(t, atom) for t in conds]
+        if any(v is False for v in vals):
+            return False
+        return None if any(v is None for v in vals) else True
+
+    def _comprehension(self, e, nid: int) -> Optional[Origin]:
+        """`{k: v for k, v in <doc>.items() if <cond>}` and its spellings (pairs handed to dict(), iteration over the keys with
+        `<doc>[k]`): the document itself iff every member is kept, under its own name, with its own value.  The condition is
+        evaluated for every member to_dict stores over the partition {None, 0, '', truthy} of what the member can hold
+        (None only for the members to_dict stores unconditionally)."""
+        if isinstance(e, ast.DictComp):
+            kx, vx = e.key, e.value
+        elif isinstance(e.elt, ast.Tuple) and len(e.elt.elts) == 2:
+            kx, vx = e.elt.elts
+        else:
+            return None
+        if len(e.generators) != 1 or e.generators[0].is_async:
+            return None
+        g = e.generators[0]
+        it = g.iter
+        while isinstance(it, ast.Call) and self._q(it.func) in ('builtins.list', 'builtins.tuple', 'builtins.sorted', 'builtins.iter') \
+                and len(it.args) == 1 and not it.keywords:
+            it = it.args[0]
+        mode, base = 'keys', it
+        if isinstance(it, ast.Call) and isinstance(it.func, ast.Attribute) and it.func.attr in ('items', 'keys') and not it.args and not it.keywords:
+            mode, base = it.func.attr, it.func.value
+        origin = self.classify(base, nid)
+        if not origin.derived:
+            return None
+        basetext = unparse(base)
+
+        def member_of(x, k):
+            if isinstance(x, ast.Subscript) and is_name(x.slice, k) and unparse(x.value) == basetext:
+                return True
+            return (isinstance(x, ast.Call) and isinstance(x.func, ast.Attribute) and x.func.attr == 'get' and len(x.args) == 1 and not x.keywords
+                    and is_name(x.args[0], k) and unparse(x.func.value) == basetext)
+
+        if mode == 'items':
+            t = g.target
+            if not (isinstance(t, (ast.Tuple, ast.List)) and len(t.elts) == 2 and all(isinstance(x, ast.Name) for x in t.elts)):
+                raise UnknownIdiom('%s: target of %s' % (self.f.qual, short(e)))
+            kn, vn = t.elts[0].id, t.elts[1].id
+            is_val = lambda x: is_name(x, vn) or member_of(x, kn)  # noqa: E731
+        else:
+            if not isinstance(g.target, ast.Name):
+                raise UnknownIdiom('%s: target of %s' % (self.f.qual, short(e)))
+            kn = g.target.id
+            is_val = lambda x: member_of(x, kn)  # noqa: E731
+        is_key = lambda x: is_name(x, kn)  # noqa: E731
+        if not self.members:
+            raise UnknownIdiom('%s: the members of the document are not known here: %s' % (self.f.qual, short(e)))
+        dropped, unknown = [], []
+        for key in sorted(self.members):
+            for cell in (CELL_NONE, CELL_ZERO, CELL_EMPTY, CELL_TRUTHY):
+                if cell == CELL_NONE and not self.members[key]:
+                    continue        # to_dict stores this member only when it is not None
+                r = self._pred(g.ifs, is_key, is_val, key, cell)
+                (dropped if r is False else unknown if r is None else []).append((key, cell))
+        real = [(k, c) for (k, c) in dropped if c != CELL_NONE]
+        if real:
+            by = {}
+            for k, c in real:
+                by.setdefault(k, []).append(c)
+            k0 = sorted(by, key=lambda k: (len(by[k]) == 3, k))[0]
+            origin = origin.step('narrow', e, 'the member %r is dropped when its value is %s%s' % (
+                k0, ' / '.join(by[k0]), '' if len(by) == 1 else ' (likewise %s)' % ', '.join(repr(k) for k in sorted(by) if k != k0)))
+        elif unknown:
+            raise UnknownIdiom('%s: the selection %s is not decided for member %r holding %s' % (
+                self.f.qual, ' and '.join(short(t) for t in g.ifs), unknown[0][0], unknown[0][1]))
+        elif dropped:
+            raise UnknownIdiom('%s: %s drops only None-valued members; whether %s can be None is not decided here' % (
+                self.f.qual, short(e), ', '.join(repr(k) for k, _c in dropped)))
+        if not is_key(kx):
+            origin = origin.step('rewrite', e, 'the members are stored under %s, not under their own names' % short(kx))
+        if not is_val(vx):
+            origin = origin.step('rewrite', e, 'what is stored is %s, not the member value' % short(vx))
+        return origin
+
+    def _mapping_shape(self, e, nid: int) -> Optional[Origin]:
+        if isinstance(e, (ast.DictComp, ast.GeneratorExp, ast.ListComp)):
+            r = self._comprehension(e, nid)
+            if r is None and self.classify_any(e, nid).derived:
+                raise UnknownIdiom('%s: cannot read how %s uses the document' % (self.f.qual, short(e)))
+            return r if r is not None else Origin()
+        if isinstance(e, ast.Dict) and e.keys and all(k is None for k in e.keys) and len(e.values) == 1:
+            return self.classify(e.values[0], nid)          # {**doc}
+        if isinstance(e, ast.Call):
+            fn = e.func
+            if self._q(fn) in DICT_COPIES and len(e.args) == 1 and not e.keywords and not isinstance(e.args[0], ast.Starred):
+                return self.classify(e.args[0], nid)
+            if isinstance(fn, ast.Attribute) and fn.attr == 'copy' and not e.args and not e.keywords:
+                recv = self.classify(fn.value, nid)
+                if recv.derived:
+                    return recv
+        return None
+
+
+def _root_call(p, f: Func, target: str):
+    """predicate: e is a call that resolves to the method `target` (self.<m>(...))"""
+    def is_root(e):
+        if not isinstance(e, ast.Call):
+            return False
+        g = p.callee(f, e)
+        return isinstance(g, Func) and g.qual == target
+    return is_root
+
+
+def _returns(f: Func, cfg):
+    rets = [n for n in cfg.live_nodes() if n.kind == 'stmt' and isinstance(n.ast, ast.Return)]
+    if not rets or any(n.ast.value is None for n in rets):
+        raise UnknownIdiom('%s: a path returns nothing' % f.qual)
+    return rets
+
+
+def _mapping_mutations(run, f: Func, prov: _Rendered, what: str):
+    """No member is removed from the mapping to_dict() returned (pop/popitem/clear/del); a store / update of it is not read."""
+    for n in walk_self(f.node):
+        tgt, kind = None, None
+        if isinstance(n, ast.Delete):
+            for t in n.targets:
+                if isinstance(t, ast.Subscript):
+                    tgt, kind = t.value, 'del'
+        elif isinstance(n, ast.Call) and isinstance(n.func, ast.Attribute) and n.func.attr in DICT_REMOVERS + DICT_WRITERS:
+            tgt, kind = n.func.value, n.func.attr
+        elif isinstance(n, (ast.Assign, ast.AugAssign)):
+            for t in (n.targets if isinstance(n, ast.Assign) else [n.target]):
+                if isinstance(t, ast.Subscript) or (isinstance(n, ast.AugAssign) and isinstance(t, ast.Name)):
+                    tgt, kind = (t.value if isinstance(t, ast.Subscript) else t), 'store'
+        if tgt is None:
+            continue
+        nid = prov.rd.cfg_node(n)
+        if nid is None or not prov.classify(tgt, nid).derived:
+            continue
+        if kind in DICT_REMOVERS or kind == 'del':
+            run.fail(what, f, n, where=f.loc(n), witness=['%s removes a member from the mapping to_dict() returned' % short(n)],
+                     runtime_witness='an HTTPError carrying that member: the JSON body lacks it although to_dict() (and the XML rendering) has it')
+        else:
+            raise UnknownIdiom('%s: %s changes the mapping to_dict() returned (not read)' % (f.qual, short(n)))
+
+
+def _whole_document_rule(run, members: Dict[str, bool]):
+    """R4 (h): HTTPError.to_json hands `self.to_dict()` to the handler WHOLE: the first argument of `<handler>.serialize(...)`
+    is that call's result itself (through copies), no member selected away, renamed or re-valued on the way (a selection
+    is decided by evaluating its predicate over {None, 0, '', truthy} for every member to_dict stores), no member removed
+    from it.  The only selection rule of the error document is `is not None` inside to_dict/_to_xml, compared by (c).
+    W: HTTPError(429, code=0) with `{k: v for k, v in self.to_dict().items() if v}`: the JSON body has no "code".
+    R4 (i): what to_json / to_xml RETURN is the bytes the serializer (`handler.serialize(...)`, `self._to_xml()`) produced,
+    unchanged: a substitution / replace over the encoded bytes is the identity only when it touches no byte a UTF-8
+    document can contain (a bytes pattern sees continuation bytes, not characters).
+    W: HTTPError(400, title='Größe').to_xml() with rb'[\\x7f-\\x9f]' deleted: b'Gr\\xc3\\xb6\\xc3e' is not UTF-8 any more."""
+    p = run.project
+    # ---- to_json
+    f = p.func(HTTP_ERROR + '.to_json')
+    cfg = cfg_of(f, p)
+    run.use_cfg(cfg)
+    doc = _Rendered(p, f, _root_call(p, f, HTTP_ERROR + '.to_dict'), 'JSON', dict, members)
+    what_h = 'HTTPError.to_json serialises the mapping to_dict() returned whole (no member selected away, renamed or re-valued)'
+    sers = []
+    for c in walk_self(f.node):
+        if isinstance(c, ast.Call) and isinstance(c.func, ast.Attribute) and c.func.attr == 'serialize' and c.args \
+                and not isinstance(c.args[0], ast.Starred):
+            nid = doc.rd.cfg_node(c)
+            if nid is None:
+                continue
+            o = doc.classify(c.args[0], nid)
+            if o.derived:
+                sers.append((c, o))
+    if not sers:
+        raise AnchorError('%s: no <handler>.serialize(<what self.to_dict() returned>, ...) call found' % f.qual)
+    for c, o in sers:
+        run.check(not o.xforms, what_h, f, o.xforms[0][1] if o.xforms else c, where=f.loc(o.xforms[0][1] if o.xforms else c),
+                  witness=o.describe() or None,
+                  runtime_witness="HTTPError(429, description='', code=0): the JSON body lacks the members the selection drops although "
+                                  'to_dict() and the XML rendering carry them')
+    _mapping_mutations(run, f, doc, what_h)
+    ser_ids = {id(c) for c, _o in sers}
+    out = _Rendered(p, f, lambda e: id(e) in ser_ids, 'JSON', bytes)
+    what_i = 'HTTPError.%s returns the bytes the serializer produced, unchanged'
+    for r in _returns(f, cfg):
+        o = out.classify(r.ast.value, r.id)
+        if not o.derived:
+            raise UnknownIdiom('%s: %s does not return the result of the serialize call' % (f.qual, short(r.ast)))
+        run.check(not o.xforms, what_i % 'to_json', f, o.xforms[0][1] if o.xforms else r.ast, where='%s:%s' % (f.file, r.lineno),
+                  witness=o.describe() or None, runtime_witness='an HTTPError whose texts contain the affected bytes: the JSON body is corrupted')
+    # ---- to_xml (the public wrapper of _to_xml)
+    g = p.func(HTTP_ERROR + '.to_xml')
+    gcfg = cfg_of(g, p)
+    run.use_cfg(gcfg)
+    xout = _Rendered(p, g, _root_call(p, g, HTTP_ERROR + '._to_xml'), 'XML', bytes)
+    for r in _returns(g, gcfg):
+        o = xout.classify(r.ast.value, r.id)
+        if not o.derived:
+            raise UnknownIdiom('%s: %s does not return what self._to_xml() produced' % (g.qual, short(r.ast)))
+        run.check(not o.xforms, what_i % 'to_xml', g, o.xforms[0][1] if o.xforms else r.ast, where='%s:%s' % (g.file, r.lineno),
+                  witness=o.describe() or None,
+                  runtime_witness="HTTPError(400, title='Ungültige Größe', description='10 €').to_xml() (the documented "
+                                  'set_error_serializer pattern): the body is no longer well-formed UTF-8 XML')
 
 
 # ---------------------------------------------------------------------------
@@ -2436,6 +2830,8 @@ def r4_rendering(run):
     # (g) what goes into the document is the field value itself
     _document_text_rule(run, xf, 'XML')
     _document_text_rule(run, p.func(HTTP_ERROR + '.to_dict'), 'JSON')
+    # (h) to_json serialises that dict whole; (i) to_json / to_xml return the serializer's bytes unchanged
+    _whole_document_rule(run, {k: not any(('self.%s is not None' % a) in d[k][0] for a in d[k][1]) for k in d})
     # (d) status tables
     _status_tables(run)
     # (e) constructor wiring
